@@ -23,6 +23,7 @@ struct Tally {
     exact: u64,
     with_learned: u64,
     emoji_lists: u64,
+    backspaces: u64,
 }
 fn flush(t: &Tally, out: &mut Out) {
     out.count("evaluations", t.events);
@@ -34,6 +35,7 @@ fn flush(t: &Tally, out: &mut Out) {
     out.count("exact_curling_checked", t.exact);
     out.count("lists_with_learned_preselection", t.with_learned);
     out.count("lists_with_emoji", t.emoji_lists);
+    out.count("backspace_events", t.backspaces);
 }
 
 fn qshape(text: &str) -> String {
@@ -137,10 +139,19 @@ fn run_phonetic(o: &PhonOracle, off: &Sess, on: &Sess, text: &str, out: &mut Out
     let case = || json!({"method": "phonetic", "cfg_off": off.spec.to_json(), "cfg_on": on.spec.to_json(), "text": text});
     let mut typed = String::new();
     let (mut sa, mut sb) = (0u8, 0u8);
-    for c in text.chars() {
-        typed.push(c);
+    let nchars = text.chars().count();
+    for (ci, c) in text.chars().enumerate() {
+        // '\u{8}' stands for a backspace
+        let bs = c == '\u{8}';
+        if bs {
+            typed.pop();
+            t.backspaces += 1;
+        } else {
+            typed.push(c);
+        }
         t.events += 2;
-        let (a, b) = match (off.key(kc(c), 0, sa), on.key(kc(c), 0, sb)) {
+        let r = if bs { (off.bs(false), on.bs(false)) } else { (off.key(kc(c), 0, sa), on.key(kc(c), 0, sb)) };
+        let (a, b) = match r {
             (Ok(a), Ok(b)) => (Rs::of(&a), Rs::of(&b)),
             (ra, rb) => {
                 let p = ra.err().or(rb.err()).unwrap();
@@ -151,7 +162,13 @@ fn run_phonetic(o: &PhonOracle, off: &Sess, on: &Sess, text: &str, out: &mut Out
         sa = a.sel().unwrap_or(0).min(255) as u8;
         sb = b.sel().unwrap_or(0).min(255) as u8;
         // judge only the final text and a few prefixes (every prefix is itself a text of the workload elsewhere)
-        if typed.len() == text.len() || typed.len() % 3 == 0 {
+        if typed.is_empty() {
+            if !a.is_empty() || !b.is_empty() {
+                compare(o, "phonetic", &a, &b, true, "", "", &typed, &case, out, t);
+            }
+            continue;
+        }
+        if ci + 1 == nchars || typed.len() % 3 == 0 || bs {
             let (lead, word, trail) = split(&typed, false);
             let (pre, post) = (o.avro(&lead), o.avro(&trail));
             out.distinct(fnv_str(&["p", &typed, &off.spec.opts.to_string()]));
@@ -166,15 +183,36 @@ fn run_phonetic(o: &PhonOracle, off: &Sess, on: &Sess, text: &str, out: &mut Out
 }
 
 fn run_fixed(o: &PhonOracle, off: &Sess, on: &Sess, keys: &[FKey], out: &mut Out, t: &mut Tally) {
+    let steps: Vec<Option<FKey>> = keys.iter().map(|k| Some(*k)).collect();
+    run_fixed_steps(o, off, on, &steps, out, t)
+}
+
+/// `None` is a backspace. After a backspace the raw key text is no longer defined (no English candidate is owed), so
+/// histories with backspaces are run on pairs without the English option and every candidate must be curled.
+fn run_fixed_steps(o: &PhonOracle, off: &Sess, on: &Sess, steps: &[Option<FKey>], out: &mut Out, t: &mut Tally) {
     let case = || {
-        let evs: Vec<Ev> = keys.iter().map(|&(k, m, _)| Ev::Key(k, m, 0)).collect();
+        let evs: Vec<Ev> = steps.iter().map(|s| match s { Some((k, m, _)) => Ev::Key(*k, *m, 0), None => Ev::Bs }).collect();
         json!({"method": "fixed", "cfg_off": off.spec.to_json(), "cfg_on": on.spec.to_json(), "events": evs_to_json(&evs)})
     };
     let mut raw = String::new();
-    for &(k, m, ch) in keys {
-        raw.push(ch);
+    let mut bs_used = false;
+    for st in steps {
         t.events += 2;
-        let (a, b) = match (off.key(k, m, 0), on.key(k, m, 0)) {
+        let r = match st {
+            Some((k, m, ch)) => {
+                raw.push(*ch);
+                (off.key(*k, *m, 0), on.key(*k, *m, 0))
+            }
+            None => {
+                bs_used = true;
+                t.backspaces += 1;
+                (off.bs(false), on.bs(false))
+            }
+        };
+        if bs_used {
+            raw.clear();
+        }
+        let (a, b) = match r {
             (Ok(a), Ok(b)) => (Rs::of(&a), Rs::of(&b)),
             (ra, rb) => {
                 let p = ra.err().or(rb.err()).unwrap();
@@ -228,7 +266,7 @@ impl Prop for C17 {
     fn rule(&self) -> String {
         "phonetic: 14 words (dictionary words, learned words, emoji names, words with inner quotes such as a'b) x every lead and trail of length <= 2 (quick) / 3 (thorough, strided pairs) over ' \" ( ) . , - : ; \
          all emoticons and a strided set of emoji names wrapped in quotes; the 20-symbol splitter alphabet to length 3; random strings with quote-heavy weighting; a learned-selection store is present; 5 option pairs (English, ANSI, suggestions off). \
-         fixed: dictionary half-words and Bengali emoji names wrapped by the same quote wrappings, typed through Probhat, 5 option pairs. \
+         fixed: dictionary half-words and Bengali emoji names wrapped by the same quote wrappings, typed through Probhat, 5 option pairs; every third text again with part of the word erased by backspaces (back to the opening wrapping, one character, or into the wrapping) and typed again; the phonetic random strings contain backspaces too. \
          Both contexts of a pair receive the same key history; lists are compared at the final text and every third prefix (phonetic) / every key (fixed). distinct_nontrivial = distinct (method, composition, options) pairs compared."
             .into()
     }
@@ -241,7 +279,7 @@ impl Prop for C17 {
     fn minima(&self, _tier: Tier) -> Vec<(&'static str, u64)> {
         vec![
             ("paired_lists_compared", 30_000), ("texts_with_quotes_in_wrapping", 8_000), ("candidates_actually_curled", 10_000), ("raw_text_candidates_checked_unchanged", 2_000),
-            ("punctuation_only_texts", 1_000), ("lists_with_learned_preselection", 100), ("lists_with_emoji", 300),
+            ("punctuation_only_texts", 1_000), ("lists_with_learned_preselection", 100), ("lists_with_emoji", 300), ("backspace_events", 1_000),
         ]
     }
     fn classify(&self, classifier: &str, _params: &Value, v: &Violation) -> bool {
@@ -332,7 +370,7 @@ impl Prop for C17 {
         for i in 0..nrand {
             // quote-heavy random strings
             let len = rng.range(1, 9);
-            let tx: String = (0..len).map(|_| *rng.pick(&"aimtk'\"'\".,(:`-xs1A\\".chars().collect::<Vec<_>>())).collect();
+            let tx: String = (0..len).map(|_| *rng.pick(&"aimtk'\"'\".,(:`-xs1A\\\u{8}\u{8}".chars().collect::<Vec<_>>())).collect();
             let (off, on) = &pp[i % pp.len()];
             out.begin_case(|| json!({"method": "phonetic", "cfg_off": off.spec.to_json(), "cfg_on": on.spec.to_json(), "text": tx}));
             run_phonetic(&o, off, on, &tx, out, &mut t);
@@ -384,6 +422,25 @@ impl Prop for C17 {
                     let (off, on) = &fp[n % fp.len()];
                     out.begin_case(|| json!({"method": "fixed", "text": text}));
                     run_fixed(&o, off, on, &keys, out, &mut t);
+                    // the same text with part of it erased and typed again: back to the opening wrapping (counting the
+                    // non-joiners traditional joining adds), one character, or one character into the wrapping
+                    if n % 3 == 0 && !w.is_empty() {
+                        let (off, on) = &fp[[0usize, 2, 3][(n / 3) % 3]];
+                        let nl = l.chars().count();
+                        let wc: Vec<char> = w.chars().collect();
+                        let k = 1 + (n / 9) % wc.len();
+                        let joiners = if off.spec.has(O_TKAR) { (1..k).filter(|&i| matches!(wc[i], 'ু' | 'ূ' | 'ৃ') && crate::fixedkit::is_consonant(wc[i - 1])).count() } else { 0 };
+                        let nbs = match (n / 27) % 3 {
+                            0 => k + joiners,
+                            1 => 1,
+                            _ => k + joiners + usize::from(nl > 0),
+                        };
+                        let mut steps: Vec<Option<FKey>> = keys[..nl + k].iter().map(|x| Some(*x)).collect();
+                        steps.extend((0..nbs).map(|_| None));
+                        let from = (nl + k).saturating_sub(nbs.min(k + usize::from(nl > 0)));
+                        steps.extend(keys[from.min(keys.len())..].iter().map(|x| Some(*x)));
+                        run_fixed_steps(&o, off, on, &steps, out, &mut t);
+                    }
                 }
             }
         }
@@ -409,8 +466,12 @@ impl Prop for C17 {
         if case.get("method").and_then(|m| m.as_str()) == Some("phonetic") {
             run_phonetic(&o, &off, &on, case.get("text").and_then(|t| t.as_str()).unwrap_or(""), out, &mut t);
         } else if let Some(evs) = case.get("events").and_then(evs_from_json) {
-            let keys: Vec<FKey> = evs.iter().filter_map(|e| if let Ev::Key(k, m, _) = e { Some((*k, *m, char_for_key(*k).unwrap_or('?'))) } else { None }).collect();
-            run_fixed(&o, &off, &on, &keys, out, &mut t);
+            let steps: Vec<Option<FKey>> = evs.iter().filter_map(|e| match e {
+                Ev::Key(k, m, _) => Some(Some((*k, *m, char_for_key(*k).unwrap_or('?')))),
+                Ev::Bs => Some(None),
+                _ => None,
+            }).collect();
+            run_fixed_steps(&o, &off, &on, &steps, out, &mut t);
         }
         flush(&t, out);
     }
